@@ -273,4 +273,63 @@ theorem dot_upscaled (tw : α) (htw : tw ≠ 0) :
         field_simp
         ring
 
+/-! ### small algebra used by `standard_unit` -/
+
+theorem sq_div_aux (a sd V : α) (h : sd * sd = V) (hsd : sd ≠ 0) :
+    a * (1 / sd) * (a * (1 / sd)) = a * a * (1 / V) := by
+  subst h; field_simp
+
+theorem mul_inv_div_aux (X d : α) (hX : X ≠ 0) (hd : d ≠ 0) : X * (1 / (X / d)) = d := by
+  field_simp
+
+/-! ### the affine conversion, one output row and all rows -/
+
+theorem affine_row [FinTest α] (hfin : ∀ y : α, FinTest.isFin y = true)
+    (fm tm : Mode) (fs : List (Stats α)) (t : Stats α) (ht : t.WF) (w x : List α) (b : α)
+    (hw : w.length = fs.length) (hx : x.length = fs.length) :
+    dot (upscaleAffineRow ((fs.map (makeScaling fm)).map Prod.fst) ((fs.map (makeScaling fm)).map Prod.snd)
+          (makeScaling tm t).1 (makeScaling tm t).2 w b).1 x +
+      (upscaleAffineRow ((fs.map (makeScaling fm)).map Prod.fst) ((fs.map (makeScaling fm)).map Prod.snd)
+          (makeScaling tm t).1 (makeScaling tm t).2 w b).2 =
+    upscaleCell tm t (dot w (List.zipWith (scaleCell fm) fs (x.map some)) + b) := by
+  obtain ⟨htw, hup⟩ := upscaleCell_affine tm t ht (dot w (List.zipWith (scaleCell fm) fs (x.map some)) + b)
+  have hscaled : List.zipWith (scaleCell fm) fs (x.map some) =
+      List.zipWith (fun (p : α × α) xj => p.1 * xj + p.2) (fs.map (makeScaling fm)) x := by
+    rw [List.zipWith_map_right, List.zipWith_map_left]
+    congr 1
+    funext s xj
+    exact scaleCell_affine hfin fm s xj
+  rw [hup, hscaled]
+  simp only [upscaleAffineRow]
+  rw [dot_upscaled _ htw (fs.map (makeScaling fm)) w x (by simpa using hw) (by simpa using hx)]
+  field_simp
+  ring
+
+theorem predict_rows [FinTest α] (hfin : ∀ y : α, FinTest.isFin y = true)
+    (fm tm : Mode) (fs : List (Stats α)) (x : List α) (hx : x.length = fs.length) :
+    ∀ (ts : List (Stats α)) (W : List (List α)) (b : List α), (∀ t ∈ ts, t.WF) →
+      b.length = ts.length → W.length = ts.length → (∀ r ∈ W, r.length = fs.length) →
+      predict
+        ((zip3With (fun (t : Stats α) w bi => upscaleAffineRow ((fs.map (makeScaling fm)).map Prod.fst)
+          ((fs.map (makeScaling fm)).map Prod.snd) (makeScaling tm t).1 (makeScaling tm t).2 w bi) ts W b).map Prod.fst)
+        ((zip3With (fun (t : Stats α) w bi => upscaleAffineRow ((fs.map (makeScaling fm)).map Prod.fst)
+          ((fs.map (makeScaling fm)).map Prod.snd) (makeScaling tm t).1 (makeScaling tm t).2 w bi) ts W b).map Prod.snd)
+        x =
+      List.zipWith (upscaleCell tm) ts (predict W b (List.zipWith (scaleCell fm) fs (x.map some)))
+  | [], W, b, _, hb, hW, _ => by
+    cases W <;> cases b <;> simp [zip3With, predict] at *
+  | t :: ts, W, b, hts, hb, hW, hr => by
+    cases W with
+    | nil => simp at hW
+    | cons w W =>
+      cases b with
+      | nil => simp at hb
+      | cons b0 b =>
+        have ih := predict_rows hfin fm tm fs x hx ts W b (fun t' h => hts t' (by simp [h]))
+          (by simpa using hb) (by simpa using hW) (fun r h => hr r (by simp [h]))
+        have hrow := affine_row hfin fm tm fs t (hts t (by simp)) w x b0
+          (hr w (by simp)) hx
+        simp only [predict] at ih ⊢
+        simp only [zip3With, List.map_cons, List.zipWith_cons_cons, hrow, ih]
+
 end NanoVerif.Scaling
